@@ -42,6 +42,7 @@ class Scenario:
         self.closes: list[dict] = []
         self.closed_at: float | None = None
         self.shutdown_at: float | None = None
+        self.first_shutdown_at: float | None = None
         self.reopened_after_close: list[float] = []
         self.healed_at: float | None = None
         self.legit_disturb: dict[int, list] = {}  # conn no -> last time something legitimately doomed it
@@ -55,6 +56,7 @@ class Scenario:
         self.corrupted: list[dict] = []
         self.burst = None
         self.ev_after_resp: list[dict] = []  # event ops waiting to go out right behind the next secure response
+        self.armed_on_accept: list[dict] = []  # ops waiting for the next established connection
         self.event_token = 0
         self.fatal: str | None = None
         self.resp_range: dict[int, tuple] = {}
@@ -88,6 +90,14 @@ class Scenario:
         w.net.write_monitors.append(self._on_write)
         w.net.pre_deliver = self._pre_deliver
         w.net.post_deliver = self._post_deliver
+        world_accept = w.net.accept_cb
+
+        def accept_cb(conn, world_accept=world_accept):
+            if world_accept:
+                world_accept(conn)
+            self._on_accept_hook(conn)
+
+        w.net.accept_cb = accept_cb
         w._orig_out = w.accessory_out
         w.accessory_out = self._accessory_out
         loop.on_idle = self._on_idle
@@ -147,6 +157,7 @@ class Scenario:
                 raise
             except BaseException as e:  # noqa: BLE001
                 rec["outcome"] = type(e).__name__
+                sc._check_unexplained_setup_failure(rec, e)
                 raise
             finally:
                 sc.in_attempt -= 1
@@ -158,6 +169,28 @@ class Scenario:
                 sc.ctx.state("attempt", rec["outcome"], len(sc.w.net.client_open_conns()), bool(connection.closing))
 
         connection._connect_once = connect_once_wrapper
+
+    def _check_unexplained_setup_failure(self, rec: dict, exc: BaseException) -> None:
+        """C12: after a successful (re)connection the accessory is asked again for every subscription.  An attempt that reached the
+        secure session with an HONEST accessory has only the re-subscription left to do; if it then dies of an exception that is
+        neither a library error nor an I/O / time-out error (RuntimeError, KeyError, TypeError ... - nothing the peer or the network
+        did), the re-subscription itself is broken."""
+        from aiohomekit.exceptions import HomeKitException
+
+        if isinstance(exc, (HomeKitException, OSError, asyncio.TimeoutError, EOFError)) or not isinstance(exc, Exception):
+            return
+        conns = [c for c in self.w.net.conns[rec["conn0"]:] if c.transport is not None]
+        if not conns:
+            return
+        for c in conns:
+            if self.w.conn_behaviour.get(c.no, {}).get("kind", "honest") != "honest" or not getattr(c.server, "secure", False):
+                return
+            if c.no in self.tainted or any(x["conn"] == c.no for x in self.corrupted):
+                return
+        self.ctx.obligations += 1
+        self.ctx.violate("C12.resubscription-raises", type(exc).__name__,
+                         f"t={self.loop.time():.3f}: connection attempt #{len(self.attempts)} reached a secure session with an honest accessory (conn "
+                         f"{[c.no for c in conns]}) and then failed with {exc!r} - not an error of the peer or the network")
 
     # ==================================================================================
     # wire monitor (C09, C05 outbound, call<->connection mapping, C08 write-on-abandoned)
@@ -405,6 +438,15 @@ class Scenario:
                 entry["removed_at"] = sc.loop.time()
                 sc.ctx.probe("listener_self_removed_in_callback")
                 entry["unsub"]()
+            if not event and spec.get("on_back") and entry["active"] and sc.first_shutdown_at is None:
+                # a listener that reacts to "the connection is back" by issuing a call of its own (an application re-reading or
+                # subscribing to something new): the call starts a few loop iterations later, i.e. while the connector is still
+                # re-subscribing on the new connection
+                k = entry["back_seen"] = entry.get("back_seen", 0) + 1
+                ob = spec["on_back"]
+                if k >= ob.get("from", 1) and k < ob.get("from", 1) + ob.get("times", 1):
+                    sc.ctx.probe("listener_called_api_on_connection_back")
+                    sc._do_op(dict(ob["op"], ticks=ob.get("ticks", 0) + 1))
             if event and spec.get("adds") and spec["adds"] not in sc.listeners:
                 # a listener that registers a further listener from inside its callback (while the dispatch is running)
                 sc.ctx.probe("listener_registered_in_callback")
@@ -426,7 +468,20 @@ class Scenario:
             return None
         return conn.server
 
+    def _on_accept_hook(self, conn) -> None:
+        """operations armed with on_accept run n loop iterations after the next connection is established (the instant the
+        controller's connect() completes): aims a close / trigger at the few iterations in which the connector is between
+        'socket connected' and 'transport created'"""
+        armed, self.armed_on_accept = self.armed_on_accept, []
+        for op in armed:
+            self.ctx.probe("op_fired_on_accept")
+            op = {k: v for k, v in op.items() if k != "on_accept"}
+            self._do_op(dict(op, ticks=op.get("ticks", 0) + 1))  # never re-entrantly from inside the connect call
+
     def _do_op(self, op: dict) -> None:
+        if op.get("on_accept"):
+            self.armed_on_accept.append(op)
+            return
         if op.get("ticks", 0) > 0:  # tick-level placement: start this operation n event-loop iterations later
             self.loop.call_soon(self._do_op, dict(op, ticks=op["ticks"] - 1))
             return
@@ -558,6 +613,8 @@ class Scenario:
             try:
                 if kind == "shutdown":
                     self.shutdown_at = loop.time()
+                    if self.first_shutdown_at is None:
+                        self.first_shutdown_at = loop.time()
                     self.shutdown_seq = len(ctx.log)
                 rec["t_invoked"] = loop.time()
                 await (self.w.pairing.shutdown() if kind == "shutdown" else self.w.pairing.close())
@@ -1150,6 +1207,8 @@ class Scenario:
         for c in self.calls:
             if c["t1"] is None or c["connected_at_start"] or c["own_timeout"] or c["cancel_after"] is not None:
                 continue
+            if self.first_shutdown_at is not None and c["t0"] >= self.first_shutdown_at - TOL:
+                continue  # issued on a pairing that was being / had been shut down: no longer "while the pairing is open"
             if c["t_written"] is None and c["outcome"] == "exc":
                 ctx.obligations += 1
                 waited = c["t1"] - c["t0"]
@@ -1159,7 +1218,10 @@ class Scenario:
                                 f"call #{c['no']} waited {waited:.3f}s although no connection became available within 10 s of t={c['t0']:.3f}")
 
     def _closed_between(self, t0: float, t1: float) -> bool:
-        return any(t0 - TOL <= c["t0"] <= t1 + TOL for c in self.closes)
+        """a close()/shutdown() call was invoked or still running inside [t0, t1] (a call that began earlier and had not returned by
+        t0 counts: close() waits for the connector, and a connector whose cancellation was swallowed - the staggered connect does
+        that while it cancels its losers - runs to the end of its attempt first)"""
+        return any(c["t0"] <= t1 + TOL and (c["t1"] is None or c["t1"] >= t0 - TOL) for c in self.closes)
 
     def _check_after_close(self) -> None:
         ctx = self.ctx
